@@ -74,7 +74,9 @@ def adaptLeaf (O : Oracle) : Leaf → Val → Except Err Val
   | .str, v => match v with | .str s => .ok (.str s) | _ => .error .value
   | .int, v => match loadIfStr O v with | .int i => .ok (.int i) | _ => .error .value      -- a bool is refused
   | .float, v => match loadIfStr O v with
-      | .int i => .ok (.flt (toFlt O i))
+      | .int i => (match toFlt O i with
+          | some r => .ok (.flt r)
+          | .none => .error .value)                 -- OverflowError -> raise_unexpected_value
       | .flt r => .ok (.flt r)
       | _ => .error .value
   | .bool, v => match loadIfStr O v with | .bool b => .ok (.bool b) | _ => .error .value
